@@ -170,6 +170,7 @@ class Scn:
     def _record(self, op, api, params, outcome):
         st = Step(op, api, params, outcome)
         st.index = len(self.log)
+        st.op_seq = self.env.op_seq
         self.log.append(st)
         if outcome.kind == "ok" and outcome.value is not None:
             v = outcome.value
@@ -535,6 +536,13 @@ class Scn:
         if self.env.fault is None:
             self.env.fault = FaultController(kinds=kinds, short_write=short_write)
         self.env.fault.armed = True
+
+    def step_of_action(self, rec):
+        """Index of the logged step during which a traced filesystem action happened."""
+        for st in self.log:
+            if getattr(st, "op_seq", None) == rec.get("op_seq"):
+                return st.index
+        return None
 
     def crashed(self):
         return self.env.crash is not None and self.env.crash.fired is not None
